@@ -186,3 +186,32 @@ def pool_race(prop, name, ob, repo, work):
 	}'''
     body = POOL_RACE % (req, mgmt)
     return run_scenario(repo, body, "Test_Replay", imports=("sync",), race=True)
+
+
+@adapter(r"GenginePool\)\.ClearPoolRules:(inv-entry|lockinv|frame|smoke)")
+def pool_clear_then_incremental(prop, name, ob, repo, work):
+    body = '''
+func Test_Replay(t *testing.T) {
+	rules := `rule "a" salience 3 begin x = 1 end`
+	pool, err := engine.NewGenginePool(1, 2, 1, rules, map[string]interface{}{})
+	if err != nil {
+		t.Fatal(err)
+	}
+	pool.ClearPoolRules()
+	if err := pool.UpdatePooledRulesIncremental(`rule "b" salience 1 begin return 7 end`); err != nil {
+		t.Fatalf("incremental update after clear: %v", err)
+	}
+	if err := pool.RemoveRules([]string{"zzz"}); err != nil {
+		t.Fatalf("removal after clear+incremental: %v", err)
+	}
+	e, res := pool.Execute(map[string]interface{}{}, true)
+	if e != nil || len(res) != 1 {
+		t.Fatalf("pool not back in service: res=%v err=%v", res, e)
+	}
+}'''
+    return run_scenario(repo, body, "Test_Replay")
+
+
+@adapter(r"GenginePool\)\.(prepare|prepareWithMultiInput):ensures:snapshot")
+def pool_publication_race(prop, name, ob, repo, work):
+    return pool_race(prop, "GenginePool).prepare:race:Kc", ob, repo, work)
